@@ -8,6 +8,8 @@ CONSTANTS
   FkB58 = 100
   FkFmt = 200
   EnSig = 100
+  OffDrivers = {}
+  SigOff = FALSE
   MaxLen = 3
   Mode = "all"
   CacheKey = "addr"
